@@ -113,14 +113,17 @@ impl Require {
     /// This will return error for any normal TOML serialization error as well if it's not
     /// possible to serialize as a TOML Table.
     pub fn metadata<T: Serialize>(&mut self, metadata: T) -> Result<(), toml::ser::Error> {
-        if let toml::Value::Table(table) = toml::Value::try_from(metadata)? {
-            self.metadata = table;
+        // The metadata is converted via its TOML document form: `toml::Value::try_from` does not
+        // preserve datetime values (they end up as tables with a private marker key).
+        match toml::to_string(&metadata)?.parse::<Table>() {
+            Ok(table) => {
+                self.metadata = table;
 
-            Ok(())
-        } else {
-            Err(toml::ser::Error::custom(String::from(
+                Ok(())
+            }
+            Err(_) => Err(toml::ser::Error::custom(String::from(
                 "Couldn't be serialized as a TOML Table.",
-            )))
+            ))),
         }
     }
 }
